@@ -304,7 +304,7 @@ impl Property for ScenarioProp {
                 let mut c = sc.clone();
                 let mut touched = false;
                 match &mut c.clients[ci].ops[oi] {
-                    Op::SampleX { st, .. } | Op::SampleRng { st, .. } | Op::Aborted { st, .. } => {
+                    Op::SampleX { st, .. } | Op::SampleRng { st, .. } | Op::Aborted { st, .. } | Op::AbortedRng { st, .. } => {
                         if *st != crate::sampler::Settings::plain() {
                             *st = crate::sampler::Settings::plain();
                             touched = true;
@@ -335,7 +335,7 @@ impl Property for ScenarioProp {
                 // only valid if ops do not carry graph-shaped data: skip when they do
                 let shaped = sc.clients.iter().any(|c: &Client| {
                     c.ops.iter().any(|o| {
-                        matches!(o, Op::SampleX { .. } | Op::SampleRng { .. } | Op::Aborted { .. } | Op::Repeat { .. })
+                        matches!(o, Op::SampleX { .. } | Op::SampleRng { .. } | Op::Aborted { .. } | Op::AbortedRng { .. } | Op::Repeat { .. } | Op::Alt(_))
                     })
                 });
                 if shaped {
